@@ -222,3 +222,49 @@ seed("c17-update-plus", "C17", NW, """            let mut j: Mat64 = jac( curren
             let dx: Vec64 = j.solve_basic( &f );
             current += dx;""", "ok-tested")
 
+
+# ---------------------------------------------------------------- C01
+SV = "src/matrix/solve.rs"
+seed("c01-drop-x-swap", "C01", SV, "        x.swap( pivot, k );\n", "", "exchange-pair")
+seed("c01-search-from-k+1", "C01", SV, "self.max_abs_in_column( k, k );", "self.max_abs_in_column( k, k + 1 );", "search-range")
+seed("c01-lu-no-abs", "C01", SV, "let abs_a = self[(k,i)].abs();", "let abs_a = self[(k,i)];", "magnitude")
+seed("c01-lu-flip-cmp", "C01", SV, "if abs_a > max_a {", "if abs_a < max_a {", "argmax")
+seed("c01-forward-incl-diag", "C01", SV, """            for k in 0..i {
+                let xk = x[ k ];
+                x[ i ] -= self[(i,k)] * xk;""", """            for k in 0..=i {
+                let xk = x[ k ];
+                x[ i ] -= self[(i,k)] * xk;""", "sweep-order/solve_lu")
+seed("c01-drop-permute", "C01", SV, "        x = permutation * x;\n", "        let _p = permutation;\n", "permute-rhs")
+seed("c01-maxabs-signed", "C01", SV, """            if max < self[(i,col)].abs() {
+                max = self[(i,col)].abs();""", """            if max < self[(i,col)] {
+                max = self[(i,col)];""", "magnitude")
+seed("c01-elim-x-wrong-mult", "C01", SV, "                x[ i ] -= elem * xk;", "                x[ i ] -= self[(i,k)] * xk;", "row-op-pair/gauss", "reads the eliminated entry instead of the saved multiplier")
+seed("c01-backsolve-inner-from-k", "C01", SV, "for j in self.rows-n+1..self.rows {", "for j in self.rows-n..self.rows {", "sweep-order/backsolve")
+seed("c01-backsolve-div-wrong", "C01", SV, "            x[ k ] /= self[(k,k)];", "            x[ k ] /= self[(k,last)];", "sweep-order/backsolve")
+seed("c01-pivot-transposed-search", "C01", SV, "let abs_a = self[(k,i)].abs();", "let abs_a = self[(i,k)].abs();", "search-range/lu")
+seed("c01-lu-perm-swap-other", "C01", SV, "permutation.swap_rows( i, imax );", "permutation.swap_rows( i, i );", "exchange-pair/lu")
+seed("c01-gauss-pivot-once", "C01", SV, """        for k in 0..self.rows-1 {
+            self.partial_pivot( x, k );""", """        self.partial_pivot( x, 0 );
+        for k in 0..self.rows-1 {""", "row-op-pair/gauss")
+seed("c01-maxabs-idx-stale", "C01", SV, "                max_index = i;\n", "                max_index = start_row;\n", "argmax")
+seed("c01-elim-from-k+1-cols", "C01", SV, "for j in k..self.rows {\n                    let kj", "for j in k+2..self.rows {\n                    let kj", "row-op-pair/gauss")
+
+# ---------------------------------------------------------------- C02
+seed("c02-zero-pivot-guard-removed", "C02", SV, "            if max_a == T::zero() { continue; }\n", "", "zero-pivot", "the original defect")
+seed("c02-counter-outside-if", "C02", SV, """                self.swap_rows( i, imax );
+                pivots += 1;
+            } """, """                self.swap_rows( i, imax );
+            } 
+            pivots += 1;""", "exchange-counter")
+seed("c02-parity-swapped", "C02", SV, "if pivots % 2 == 0 { det } else { - det }", "if pivots % 2 == 0 { - det } else { det }", "parity")
+seed("c02-det-loop-from-1", "C02", SV, """        for i in 0..self.rows() {
+            det *= temp[(i,i)];""", """        for i in 1..self.rows() {
+            det *= temp[(i,i)];""", "diag-product")
+seed("c02-det-on-self-unfactorised", "C02", SV, "            det *= temp[(i,i)];", "            det *= self[(i,i)];", "diag-product")
+seed("c02-inverse-backward-inner", "C02", SV, """                for k in i+1..self.rows() {
+                    let inv_kj = inv[(k,j)];""", """                for k in i..self.rows() {
+                    let inv_kj = inv[(k,j)];""", "inverse-shape")
+seed("c02-inverse-nodiv", "C02", SV, "                inv[(i,j)] /= lu[(i,i)];\n", "", "inverse-shape")
+seed("c02-counter-by-two", "C02", SV, "                pivots += 1;", "                pivots += 2;", "exchange-counter")
+seed("c02-parity-mod3", "C02", SV, "if pivots % 2 == 0 { det }", "if pivots % 3 == 0 { det }", "parity")
+seed("c02-zero-guard-on-wrong-var", "C02", SV, "            if max_a == T::zero() { continue; }", "            if self[(i,i)] == T::one() { continue; }", "zero-pivot")
